@@ -93,6 +93,9 @@ LatticeEdgesFrom(h, w, c) ==
          (IF x # w THEN <<<<c, c + 1>>>> ELSE <<>>) \o LatticeEdgesFrom(h, w, c + 1)
 Lattice(h, w) == [n |-> (h + 1) * (w + 1), edges |-> LatticeEdgesFrom(h, w, 0)]
 
+(* the line graph: one vertex per edge, two of them adjacent iff the edges share an endpoint (parallel edges included) *)
+LineGraphPairs(G) == {p \in E(G) \X E(G) : p[1] < p[2] /\ Ends(G, p[1]) \cap Ends(G, p[2]) # {}}
+
 (* set partitions of 0..n-1 as restricted growth strings (block ids in order of first appearance), *)
 (* built level by level (a naive recursion over lazily evaluated unions does not terminate in practice) *)
 RgsMax(s) == IF s = <<>> THEN -1 ELSE LET S == {s[i] : i \in DOMAIN s} IN CHOOSE x \in S : \A y \in S : y <= x
